@@ -31,7 +31,7 @@ ASSUMPTIONS = [
     'finding), 0^0, 0^negative, negative^fraction, overflow',
 ]
 FLOORS = {'evaluate_outcomes': 2000, 'pairs_seen': 144,
-          'reassigned_evaluations': 300, 'chained_evaluations': 300, 'far_reference_cases': 60, 'two_sheet_evaluations': 300,
+          'reassigned_evaluations': 300, 'chained_evaluations': 300, 'far_reference_cases': 60, 'long_chain_cases': 100, 'two_sheet_evaluations': 300,
           'decimal_residue_cases': 100, 'postfix_percent_cases': 30, 'big_power_cases': 12, 'error_operand_cases': 300,
           'rendering_groups': 500}
 ANCHOR_FUNCS = {
@@ -775,6 +775,69 @@ def run(ctx):
                                       'reference': expect[1]},
                      kf=R.attribute(wb, ast, got), monitor='reference-value',
                      group='far-references')
+    # ---- long chains at one precedence level: hundreds of operands joined by
+    # + and -, by * and /, or by & (left to right, whatever the length), also as
+    # the operand of a comparison or of a lower-precedence operator ------------
+    if sh in (7, 8, 9) or thorough:
+        for n_ops in (100, 251, 252, 255, 256, 300, 600):
+            vals = [rng.choice([1, 2, 3, 0.5, 4, -1, 1.5]) for _ in range(n_ops)]
+            inputs = {f'A{i + 1}': v for i, v in enumerate(vals)}
+            for family in ('+-', '*/', '&'):
+                ops = [rng.choice(family) for _ in range(n_ops - 1)]
+                if family == '*/':
+                    # keep the running value in range: alternate around 1
+                    ops = ['*' if i % 2 == 0 else '/'
+                           for i in range(n_ops - 1)]
+                    rng.shuffle(ops)
+                text = 'A1' + ''.join(f'{o}A{i + 2}'
+                                      for i, o in enumerate(ops))
+                if family == '&':
+                    want_v = ''.join(
+                        str(int(v)) if float(v).is_integer() and not
+                        isinstance(v, float) else str(v) for v in vals)
+                    if any(isinstance(v, float) for v in vals):
+                        # the text form of floats is judged in C08/C17
+                        vals_i = [int(v) if float(v).is_integer() else 2
+                                  for v in vals]
+                        inputs_f = {f'A{i + 1}': v
+                                    for i, v in enumerate(vals_i)}
+                        want_v = ''.join(str(v) for v in vals_i)
+                    else:
+                        inputs_f = inputs
+                    forms = {f'={text}': ('text', want_v),
+                             f'=LEN({text})': ('num', float(len(want_v))),
+                             f'={text}="x"': ('bool', False)}
+                else:
+                    inputs_f = inputs
+                    acc = float(vals[0])
+                    for o, v in zip(ops, vals[1:]):
+                        acc = {'+': acc + v, '-': acc - v, '*': acc * v,
+                               '/': acc / v}[o]
+                    forms = {f'={text}': ('num', acc),
+                             f'={text}>1E+300': ('bool', False),
+                             f'=({text})*2': ('num', acc * 2),
+                             f'=1-{text}' if family == '*/' else
+                             f'=2*A1+{text}': ('num', 1 - acc)
+                             if family == '*/' else
+                             ('num', 2 * vals[0] + acc)}
+                outs = subject.eval_batch(list(forms), inputs_f)
+                for (ftext, want), got in zip(forms.items(), outs):
+                    ctx.event('long_chain_cases')
+                    ctx.event('evaluate_outcomes')
+                    ctx.case(('long-chain', n_ops, family, ftext[-6:]))
+                    ok = got == ('value', want) or (
+                        got[0] == 'value' and want[0] == 'num'
+                        and values_equal(got[1], want))
+                    if not ok:
+                        ctx.fail(f'{ftext[:70]}... ({n_ops} operands joined by '
+                                 f'{family!r}): observed {str(got)[:160]}, left '
+                                 f'to right gives {str(want)[:80]}',
+                                 {'operands': n_ops, 'operators': family,
+                                  'formula': ftext[:400],
+                                  'observed': str(got)[:300],
+                                  'reference': str(want)[:300]},
+                                 monitor='reference-value',
+                                 group=f'long-chain:{family}:{got[0]}')
     ctx.event('pairs_seen', 0)
     ctx.data['pairs'] = sorted('%s %s' % p for p in R.pairs_seen)
     ops_applied = sum(v for k, v in rec.calls.items()
